@@ -5403,6 +5403,9 @@ class Arc(Curve):
             self.pry = Point(start)
             self.center = Point(start)
             return
+        # Negative radii act as their absolute values.
+        rx = abs(rx)
+        ry = abs(ry)
         cosr = cos(radians(rotation))
         sinr = sin(radians(rotation))
         dx = (start.real - end.real) / 2
